@@ -473,6 +473,14 @@ class C01(World):
             # an angle-weighted sum of face normals that nearly cancels is unitised: transported (1e-16 accurate) normals and
             # recomputed ones then differ by 1e-16 / |sum| (1e-8 seen in the thorough tier); staleness gives O(0.1)
             tol = 1e-6
+        if name == "face_adjacency_radius" and np.shape(got) == np.shape(want):
+            # radius = span / (2 sin(angle / 2)) is unbounded and ill-conditioned for coplanar neighbours (2.97e16 vs inf seen in the
+            # thorough tier on a subdivided mesh): compare the curvature 1/r, which is proportional to the angle
+            def curv(x):
+                x = np.asarray(x, dtype=float)
+                return np.divide(1.0, x, out=np.zeros_like(x), where=np.isfinite(x) & (x != 0))
+
+            got, want, tol = curv(got), curv(want), 1e-6
         bad = same(got, want, tol, name)
         if bad:
             ctx.fail(oracle, name, f"after {st['last_mut']} ({memo} before it): {bad}")
